@@ -386,11 +386,23 @@ def workload(ctx, lentil):
                       'the same angle given as a Python number', {'angle': ang, 'type': np.dtype(at).name,
                                                                   'rect': float(np.abs(gr - refr).max()), 'spider': float(np.abs(gs - refs).max())})
         # window of a cube (frames first, as pad and rebin have it) selected by an explicit slice == selected by the centred shape
-        cube = rng.normal(size=(3, 8, 10))
-        wa = U.window(cube, shape=(4, 4))
-        wb = U.window(cube, shape=(4, 4), slice=(2, 6, 3, 7))
-        ctx.check(np.shape(wb) == np.shape(wa) and np.array_equal(wa, wb), 'pad=index-model', 'window|cube|slice',
-                  'window(cube, slice=...) does not crop the rows and columns of every frame', {'shapes': [list(np.shape(wa)), list(np.shape(wb))]})
+        nf_ = int(rng.integers(1, 5))
+        cube = rng.normal(size=(nf_, 8, 10))
+        try:
+            wa = U.window(cube, shape=(4, 4))
+            wb = U.window(cube, shape=(4, 4), slice=(2, 6, 3, 7))
+            ctx.check(np.shape(wb) == np.shape(wa) and np.array_equal(wa, wb) and np.array_equal(wa, cube[:, 2:6, 3:7]), 'pad=index-model', 'window|cube|slice',
+                      'window(cube, shape=...) / window(cube, slice=...) does not crop the rows and columns of every frame around the origin sample',
+                      {'frames': nf_, 'shapes': [list(np.shape(wa)), list(np.shape(wb))]})
+            # a target that crops one axis and keeps (or grows) the other
+            wc = U.window(cube, shape=(4, 10))
+            wd = U.window(cube, shape=(4, 12))
+            ctx.check(np.array_equal(wc, cube[:, 2:6, :]) and np.shape(wd) == (nf_, 4, 12) and np.array_equal(wd[:, :, 1:11], cube[:, 2:6, :])
+                      and not wd[:, :, [0, 11]].any(), 'pad=index-model', 'window|cube|mixed',
+                      'window(cube, shape=...) with one axis cropped and the other kept / grown is not the centred window of every frame',
+                      {'frames': nf_, 'shapes': [list(np.shape(wc)), list(np.shape(wd))]})
+        except Exception as e:
+            ctx.check(False, 'pad=index-model', f'window|cube|raises={type(e).__name__}', str(e), {'frames': nf_})
     # ---- rescale: what sits on the origin sample stays on the origin sample (odd and even sizes, in and out) ------
     for i in range(max(6, n // 30)):
         m_ = int(rng.integers(21, 70))
